@@ -12,3 +12,5 @@ import SpoxModel.Props.C16
 #print axioms C16.write_sites_defaults
 #print axioms C16.own_setting_restored_any_body
 #print axioms C16.settings_restored_any_body
+#print axioms C16.module_state_inventory
+#print axioms C16.behaviour_after_blocks
